@@ -137,9 +137,10 @@ StorageDicts(b) ==
     LET keys == {b.desc.funcs[i].outputs : i \in FIdx(b.desc)} \cup {<<"zzz">>} IN
     UNION {{<<DEntry(<<>>, "file_array"), DEntry(k, "nonsense")>>, <<DEntry(k, "nonsense"), DEntry(<<>>, "file_array")>>,
             <<DEntry(<<>>, "dict"), DEntry(k, "nonsense")>>} : k \in keys}
+(* cleanup=FALSE is where purity shows; cleanup=TRUE (user code would run) only for the order any(...) does not reach *)
 StorageDictMutants(b) ==
     {[op |-> "unknown_storage_in_dict", req |-> MapReq(b, [Cfg("file_array", cl, TRUE) EXCEPT !.sdict = sd], b), how |-> NoHow] :
-         sd \in StorageDicts(b), cl \in BOOLEAN}
+         <<sd, cl>> \in {x \in StorageDicts(b) \X BOOLEAN : ~x[2] \/ (x[1][1].name = "file_array" /\ x[1][1].key = <<>>)}}
 
 (* --- ill-formedness introduced after construction, through the update methods of a member function.  `how` tells the    *)
 (* harness which call produces it on the valid base pipeline:  pipeline[first output of f].update_renames({old: new}) /   *)
